@@ -470,11 +470,12 @@ func (c *compiler) evalUpdateIndex(left, index, value interface{}) error {
 // holds reports whether is() is true for v or for anything v contains.
 // Index assignment uses it to refuse tying a value into itself: a slice or
 // map that contains itself can be built in a template (a[0] = a), and
-// printing one never ends. Only what a template can build and the printers
-// descend into is looked at - slices, arrays and maps, and what their
-// interface-typed elements hold. Pointers and structs are the caller's own
-// data: they are not followed (the printers do not follow them either, and
-// their owner may be changing them under a lock of its own).
+// printing one never ends. What is looked at is what the printers (package
+// fmt behind inspect, debug and string concatenation) descend into: slices,
+// arrays, maps, struct values and what their interface-typed elements hold.
+// Pointers are not followed: the printers show a nested pointer as an
+// address, and what it points to is the caller's own data (its owner may be
+// changing it under a lock of its own).
 func holds(v reflect.Value, is func(reflect.Value) bool, seen map[[2]uintptr]bool) bool {
 	switch v.Kind() {
 	case reflect.Interface:
@@ -486,9 +487,7 @@ func holds(v reflect.Value, is func(reflect.Value) bool, seen map[[2]uintptr]boo
 		if is(v) {
 			return true
 		}
-		switch v.Type().Elem().Kind() {
-		case reflect.Interface, reflect.Map, reflect.Slice, reflect.Array:
-		default:
+		if !mayHold(v.Type().Elem()) {
 			return false
 		}
 		// data handed in from Go may already be cyclic: visit everything once
@@ -504,11 +503,16 @@ func holds(v reflect.Value, is func(reflect.Value) bool, seen map[[2]uintptr]boo
 		}
 		seen[at] = true
 	case reflect.Array:
-		switch v.Type().Elem().Kind() {
-		case reflect.Interface, reflect.Map, reflect.Slice, reflect.Array:
-		default:
+		if !mayHold(v.Type().Elem()) {
 			return false
 		}
+	case reflect.Struct:
+		for i := 0; i < v.NumField(); i++ {
+			if mayHold(v.Type().Field(i).Type) && holds(v.Field(i), is, seen) {
+				return true
+			}
+		}
+		return false
 	default:
 		return false
 	}
@@ -525,6 +529,16 @@ func holds(v reflect.Value, is func(reflect.Value) bool, seen map[[2]uintptr]boo
 		if holds(v.Index(i), is, seen) {
 			return true
 		}
+	}
+	return false
+}
+
+// mayHold reports whether a value of type t can hold a slice or map without
+// a pointer in between.
+func mayHold(t reflect.Type) bool {
+	switch t.Kind() {
+	case reflect.Interface, reflect.Map, reflect.Slice, reflect.Array, reflect.Struct:
+		return true
 	}
 	return false
 }
